@@ -46,6 +46,28 @@ def render(seq, paths, rng):
     return "\n".join(lines), pos
 
 
+RECYCLE_CLASSES = [
+    ("\nclass PB { public qubit q; public constructor() -> PB { return this; } }\n"
+     "class WP extends PB { public qubit p; public constructor() -> WP { super(); return this; } "
+     "public function fire() -> void { x(q); measure q; measure this.p; } }\n"),
+    ("\nclass PB { public qubit q; public qubit[2] rr; public constructor() -> PB { return this; } }\n"
+     "class WP extends PB { public qubit p; public constructor() -> WP { super(); return this; } "
+     "public function fire() -> void { x(q); measure q; measure this.p; measure rr[1]; } }\n"),
+    ("\nclass PA { public qubit q; public constructor() -> PA { return this; } }\n"
+     "class PB extends PA { public constructor() -> PB { super(); return this; } }\n"
+     "class WP extends PB { public constructor() -> WP { super(); return this; } "
+     "public function fire() -> void { x(q); measure q; } }\n")]
+
+
+def render_recycled(seq, paths, rng):
+    """the same program, but its qubits are declared after an object that owned qubits — its own and inherited ones, all measured — has
+    died: the recycled indices are fresh, pairwise distinct qubits, flags included"""
+    src, pos = render(seq, paths, rng)
+    end = rng.choice(["destroy w;", ""])
+    src = src.replace("function main() -> void {", "function main() -> void { { WP w = new WP(); w.fire(); %s }" % end, 1)
+    return src + rng.choice(RECYCLE_CLASSES), pos
+
+
 def render_obj(seq, paths, rng):
     """the two qubits are fields a, b of an object created in an inner block; reached as o.a, through methods using the bare
     field name / this.a, or passed to a helper function; the object dies (with whatever flags its fields have) at the block end."""
@@ -141,6 +163,10 @@ def run(chk):
         if not any(op == "marr" for op, _ in seq):
             src, pos = render_obj(seq, paths, rng)
             progs.append((src, evallib.gen_draws(rng, len(seq) + 2)))
+            meta.append((seq, pos))
+        if len(seq) <= 2 or rng.random() < 0.05:
+            src, pos = render_recycled(seq, paths, rng)
+            progs.append((src, evallib.gen_draws(rng, len(seq) + 6)))
             meta.append((seq, pos))
     chk.exhaustive = True
     lines, impl, model, incident = evallib.run_programs(progs)
